@@ -242,6 +242,10 @@ def case_strategy(draw, max_ops=6):
                 other, oshape, otyp = g.leaf(otyp, oshape)
                 res = sh + _shadow(oshape)
                 flavour = draw(st.sampled_from(['add', 'radd', 'sub', 'rsub']))
+                if otyp == 'C' and len(oshape) == 2 and draw(st.booleans()):
+                    # a SciPy sparse matrix as the right operand of + / - (on the left SciPy's own operator is in charge)
+                    other = ['const', dict(_const_ir(draw, oshape), kind='sparse', dtype='f8')]
+                    flavour = draw(st.sampled_from(['add', 'sub']))
                 node = [flavour, node, other]
                 shape = list(res.shape)
                 typ = _join(typ, otyp)
@@ -596,7 +600,12 @@ def _interp(node, objs, npvals, stats, func_style, vecs=None):
 
     def R(f, name):
         try:
-            return f()
+            out = f()
+            if out is None or out is NotImplemented:
+                raise Mismatch('returns_nothing', name, 'operator %s returned %r instead of an expression (or raising)' % (name, out))
+            return out
+        except Mismatch:
+            raise
         except Exception as ex:  # RSOME raised: allowed by the statement ("raises rather than ...")
             from vf.core import rsome_frame
             stats.append('unsupported:%s:%s' % (name, type(ex).__name__))
